@@ -1,3 +1,100 @@
-From Ebu Require Import Bus.BusModel.
-Theorem C01_placeholder : True. Proof. exact I. Qed.
-Print Assumptions C01_placeholder.
+(* C01 — Publish reaches exactly the subscribed handlers, once each, in order.
+   The registry of the model is flat (type -> registrations in subscription order); shards appear only as the
+   steps of ClearAll, parameterised by an ARBITRARY routing function: nothing below depends on routing. *)
+From Coq Require Import List Arith Bool.
+Import ListNotations.
+From Ebu Require Import Bus.BusModel Bus.BusInv.
+
+(* The snapshot step queues exactly the registrations of the published type present at that step, in
+   subscription order, each once - never a handler of another type - followed by the once-removal, the after
+   hooks and the completion callback.  Re-entrant calls from handlers are ordinary later steps: they cannot
+   change what was queued. *)
+Theorem C01_snapshot_exact : forall P cfg s a p rest s' ls,
+  step_instr P cfg s a (ISnapshot p) rest = Some (s', ls) ->
+  exists tail, assoc_get (code s') a = Some (map (IEntry p) (handlers_of s (pb_ty (get_pub s p))) ++ IRemoveOnce p :: tail) /\
+               registry s' = registry s /\ ls = [] /\
+               tail = (match c_after_legacy cfg with Some _ => [IAfterLegacy p] | None => [] end) ++
+                      (match c_after_ctx cfg with Some _ => [IAfterCtx p] | None => [] end) ++
+                      (if c_obs cfg then [IPubDone p] else []) ++ rest.
+Proof. exact snapshot_exact. Qed.
+Print Assumptions C01_snapshot_exact.
+
+(* Per queued registration: filter first, then the once-claim, then dispatch (sync: skipped if cancelled). *)
+Theorem C01_entry_decisions : forall P cfg s a p h rest,
+  (forall s' ls, step_instr P cfg s a (IFilterDone p h) rest = Some (s', ls) ->
+     assoc_get (code s') a = Some (if filter_accepts P h (get_pub s p) then IClaim p h :: rest else rest)) /\
+  (forall s' ls, step_instr P cfg s a (IClaim p h) rest = Some (s', ls) ->
+     assoc_get (code s') a =
+       Some (if h_once (r_spec h)
+             then (if is_cancelled s (pb_ctx (get_pub s p)) then rest
+                   else if memb (r_id h) (executed s) then rest else IDispatch p h :: rest)
+             else IDispatch p h :: rest)) /\
+  (forall s' ls, h_async (r_spec h) = false -> step_instr P cfg s a (IDispatch p h) rest = Some (s', ls) ->
+     assoc_get (code s') a = Some (if is_cancelled s (pb_ctx (get_pub s p)) then rest
+                                   else call_handler P p h false (c_obs cfg) ++ rest)).
+Proof. exact entry_decisions. Qed.
+Print Assumptions C01_entry_decisions.
+
+(* Subscribe appends one registration to its type and touches no other type. *)
+Theorem C01_subscribe : forall P cfg s a t sp rest s' ls,
+  step_instr P cfg s a (IDo (ASub t sp)) rest = Some (s', ls) ->
+  handlers_of s' t = handlers_of s t ++ [{| r_id := next_rid s; r_ty := t; r_spec := sp |}] /\
+  (forall t', t' <> t -> handlers_of s' t' = handlers_of s t') /\ next_rid s' = S (next_rid s).
+Proof. exact subscribe_exact. Qed.
+Print Assumptions C01_subscribe.
+
+(* Unsubscribe removes exactly one registration of the given handler - the first - or reports "not found" and
+   changes nothing; other types are untouched. *)
+Theorem C01_unsubscribe_one : forall P cfg s a t fn rest s' ls,
+  step_instr P cfg s a (IDo (AUnsub t fn)) rest = Some (s', ls) ->
+  (forall t', t' <> t -> handlers_of s' t' = handlers_of s t') /\
+  match remove_first_fn (handlers_of s t) fn with
+  | Some l' => handlers_of s' t = l' /\ ls = [LRes (AUnsub t fn) 1]
+  | None => handlers_of s' t = handlers_of s t /\ ls = [LRes (AUnsub t fn) 0]
+  end.
+Proof. exact unsubscribe_exact. Qed.
+Print Assumptions C01_unsubscribe_one.
+
+Theorem C01_remove_first_spec : forall l fn,
+  match remove_first_fn l fn with
+  | Some l' => exists pre h post, l = pre ++ h :: post /\ l' = pre ++ post /\ h_fn (r_spec h) = fn /\
+                                  forall x, In x pre -> h_fn (r_spec x) <> fn
+  | None => forall x, In x l -> h_fn (r_spec x) <> fn
+  end.
+Proof. exact remove_first_fn_spec. Qed.
+Print Assumptions C01_remove_first_spec.
+
+Theorem C01_clear : forall P cfg s a t rest s' ls,
+  step_instr P cfg s a (IDo (AClear t)) rest = Some (s', ls) ->
+  handlers_of s' t = [] /\ forall t', t' <> t -> handlers_of s' t' = handlers_of s t'.
+Proof. exact clear_exact. Qed.
+Print Assumptions C01_clear.
+
+(* ClearAll, shard by shard, for any routing function: a shard step empties exactly the types routed to it *)
+Theorem C01_clear_shard : forall P cfg s a k rest s' ls,
+  step_instr P cfg s a (IClearShard k) rest = Some (s', ls) ->
+  forall t, handlers_of s' t = if Nat.eqb (p_routes P t) k then [] else handlers_of s t.
+Proof. exact clear_shard_exact. Qed.
+Print Assumptions C01_clear_shard.
+
+Theorem C01_count_agrees : forall P cfg s a t rest s' ls,
+  step_instr P cfg s a (IDo (ACount t)) rest = Some (s', ls) ->
+  ls = [LRes (ACount t) (length (handlers_of s t))] /\ registry s' = registry s.
+Proof. exact count_agrees. Qed.
+Print Assumptions C01_count_agrees.
+
+Theorem C01_has_agrees : forall P cfg s a t rest s' ls,
+  step_instr P cfg s a (IDo (AHas t)) rest = Some (s', ls) ->
+  ls = [LRes (AHas t) (if Nat.ltb 0 (length (handlers_of s t)) then 1 else 0)] /\ registry s' = registry s.
+Proof. exact has_agrees. Qed.
+Print Assumptions C01_has_agrees.
+
+Example C01_nonvacuous :
+  let P := {| p_bodies := [(0, {| b_acts := [] |}); (1, {| b_acts := [AUnsub 0 2; ASub 0 {| h_fn := 4; h_once := false; h_async := false; h_seq := false; h_ctx := false; h_filter := None; h_body := 0 |}] |})];
+              p_filters := []; p_routes := fun _ => 0; p_nshards := 32; p_pfault := fun _ => PfOk |} in
+  let sp b fn := {| h_fn := fn; h_once := false; h_async := false; h_seq := false; h_ctx := false; h_filter := None; h_body := b |} in
+  let '(s, ls) := run P cfg0 (init_state [[ASub 0 (sp 1 0); ASub 0 (sp 0 2); APub 0 7 CtxBg false; ACount 0]]) (repeat 0 40) in
+  (* the handler that unsubscribes the second one while the event is being delivered does not stop its delivery *)
+  filter (fun l => match l with LEnter _ _ _ => true | _ => false end) ls = [LEnter 0 0 CtxBg; LEnter 0 1 CtxBg] /\
+  map r_id (handlers_of s 0) = [0; 2].
+Proof. vm_compute. auto. Qed.
